@@ -280,3 +280,109 @@ Definition tags (cs : list scase) : list (N * N) :=
     end)) cs.
 
 End S.
+
+(* ================================================================ F *)
+(* raw frames: the model decodes every frame byte by byte (rx_frames) and feeds the knocks to
+   the detector model; the property is judged with a decoder-independent reading of the frame
+   at fixed offsets (Ethernet II, IPv4 without options) *)
+Module F.
+Import S.
+
+Record fcase := mkF { f_id : N; f_me : list N; f_frames : list bytes; f_ticks : list (list ev) }.
+
+Fixpoint knocks_of (os : list fout) : list knock :=
+  match os with
+  | [] => []
+  | FKnock k :: r => k :: knocks_of r
+  | _ :: r => knocks_of r
+  end.
+
+Definition untracked (o : fout) : bool := match o with FPanic | FUnknown => true | _ => false end.
+
+Definition model_ticks (c : fcase) : list (list ev) :=
+  let ks := knocks_of (rx_frames (f_me c) [] (f_frames c)) in
+  map (map ev_of_report)
+      (fst (run (map (fun k => DKnock k 0%Z) ks ++ map DTick (tick_times (length (f_ticks c)))) det0)).
+
+(* the UDP handler goroutines race: events and ports are compared up to order *)
+Definition ev_key2 (e : ev) : N :=
+  ((e_sip e * 281474976710656 + e_smac e) * 281474976710656 + e_dmac e) * 4
+  + match e_ports e with p :: _ => fst p | [] => 3 end.
+Definition canon2 (t : list ev) : list ev := sort_by ev_key2 (map canon_ev t).
+
+Definition mismatches (cs : list fcase) : list N :=
+  map f_id (filter (fun c =>
+    existsb untracked (rx_frames (f_me c) [] (f_frames c)) ||
+    negb (list_eqb (list_eqb ev_eqb) (map canon2 (model_ticks c)) (map canon2 (f_ticks c)))) cs).
+
+(* ---- the property on the observed events ---- *)
+Definition SIG_FRAME_MISSING := 8.    (* a well-formed probe frame is in no portscan event of its source *)
+Definition SIG_FRAME_TWICE := 9.      (* a pair is listed more than once for one source *)
+Definition SIG_FRAME_SPURIOUS := 10.  (* a listed pair corresponds to no frame of that source *)
+Definition SIG_FRAME_LATE := 11.      (* listed, but not in the first tick after the burst *)
+
+(* (smac, dmac, sip, dip) and the pair a frame must be listed as, when it is without doubt a
+   probe: Ethernet II / IPv4, version 4, no IP options, complete, to one of our addresses;
+   UDP with consistent length to a port without decoder; any ICMP message of >= 8 bytes; TCP
+   without options, SYN and no ACK, neither port 22 *)
+Definition spec_probe (me : list N) (f : bytes) : option ((N * N * N * N) * (N * N)) :=
+  if blen f <? 34 then None
+  else if negb (u16 f 12 =? 2048) then None
+  else if negb (u8 f 14 =? 69) then None
+  else
+    let tl := u16 f 16 in
+    if (tl <? 20) || (blen f <? 14 + tl) then None
+    else if negb (existsb (N.eqb (be32 f 30)) me) then None
+    else
+      let l4 := tl - 20 in
+      let src := (be48 f 6, be48 f 0, be32 f 26, be32 f 30) in
+      match u8 f 23 with
+      | 17 => if (8 <=? l4) && (u16 f 38 =? l4) && negb (existsb (N.eqb (u16 f 36)) udp_decoder_ports)
+              then Some (src, (1, u16 f 36)) else None
+      | 1 => if 8 <=? l4 then Some (src, (2, 0)) else None
+      | 6 => if (20 <=? l4) && (u8 f 46 / 16 =? 5) && flag (u8 f 47) 1 && negb (flag (u8 f 47) 4) &&
+                negb (u16 f 34 =? 22) && negb (u16 f 36 =? 22)
+             then Some (src, (0, u16 f 36)) else None
+      | _ => None
+      end.
+
+Definition src_eqb (a b : N * N * N * N) : bool :=
+  let '(a1, a2, a3, a4) := a in let '(b1, b2, b3, b4) := b in
+  (a1 =? b1) && (a2 =? b2) && (a3 =? b3) && (a4 =? b4).
+Definition ev_src (e : ev) : N * N * N * N := (e_smac e, e_dmac e, e_sip e, e_dip e).
+
+Definition listed_for (src : N * N * N * N) (evs : list ev) : list (N * N) :=
+  flat_map e_ports (filter (fun e => src_eqb (ev_src e) src) evs).
+
+(* could the frame be the origin of the listed pair at all? *)
+Definition frame_matches (e : ev) (p : N * N) (f : bytes) : bool :=
+  (34 <=? blen f) && src_eqb (be48 f 6, be48 f 0, be32 f 26, be32 f 30) (ev_src e) &&
+  match fst p with
+  | 0 => (u8 f 23 =? 6) && (u16 f 36 =? snd p)
+  | 1 => (u8 f 23 =? 17) && (u16 f 36 =? snd p)
+  | 2 => (u8 f 23 =? 1) && (snd p =? 0)
+  | _ => false
+  end.
+
+Definition case_sigs (c : fcase) : list N :=
+  let all := concat (f_ticks c) in
+  let first := hd [] (f_ticks c) in
+  let inl x l := existsb (pair_eqb x) l in
+  let probes := opts (map (spec_probe (f_me c)) (f_frames c)) in
+  nodup_n (
+    flat_map (fun sp => let '(src, p) := sp in
+      if negb (inl p (listed_for src all)) then [SIG_FRAME_MISSING]
+      else (if inl p (listed_for src first) then [] else [SIG_FRAME_LATE]) ++
+           (if Nat.ltb 1 (count_p p (listed_for src all)) then [SIG_FRAME_TWICE] else [])) probes ++
+    flat_map (fun e => flat_map (fun p =>
+      if existsb (frame_matches e p) (f_frames c) then [] else [SIG_FRAME_SPURIOUS]) (e_ports e)) all).
+
+Definition violations (cs : list fcase) : list (N * N) :=
+  flat_map (fun c => map (fun s => (f_id c, s)) (case_sigs c)) cs.
+
+(* tag: 1 + number of knocking frames (capped) *)
+Definition tags (cs : list fcase) : list (N * N) :=
+  map (fun c => (f_id c, match f_frames c with [] => 0 | _ =>
+     1 + N.min 200 (N.of_nat (length (knocks_of (rx_frames (f_me c) [] (f_frames c))))) end)) cs.
+
+End F.
